@@ -249,6 +249,42 @@ theorem flatTest_step (cf : Cfg V) (truth : Bool) (e : PV.Src.Expr V) (fs fs1 : 
               have h2 := flatE_step cf b fsa none fsb cb ob hb
               rw [← h.1]
               exact ⟨h1.1.trans h2.1, fun w => h2.2 (h1.2 w)⟩
+    · split at h
+      · split at h
+        · cases h
+        · rename_i fsa ca oa ha
+          simp only [Option.some.injEq, Prod.mk.injEq] at h
+          rw [← h.1]; exact flatE_step cf _ fs none fsa ca oa ha
+      · cases h
+  | read q args =>
+    simp only [flatTest] at h
+    split at h
+    · split at h
+      · cases h
+      · rename_i fsa ca oa ha
+        simp only [Option.some.injEq, Prod.mk.injEq] at h
+        rw [← h.1]; exact flatE_step cf _ fs none fsa ca oa ha
+    · cases h
+  | un op e =>
+    simp only [flatTest] at h
+    split at h
+    · split at h
+      · split at h
+        · simp only [Option.some.injEq, Prod.mk.injEq] at h; rw [← h.1]; exact ⟨Step.refl fs, id⟩
+        · cases h
+      · split at h
+        · cases h
+        · rename_i fsa ca oa ha
+          simp only [Option.some.injEq, Prod.mk.injEq] at h
+          rw [← h.1]; exact flatE_step cf _ fs none fsa ca oa ha
+      · split at h
+        · split at h
+          · cases h
+          · rename_i fsa ca oa ha
+            simp only [Option.some.injEq, Prod.mk.injEq] at h
+            rw [← h.1]; exact flatE_step cf _ fs none fsa ca oa ha
+        · cases h
+      · cases h
     · cases h
   | gvar x =>
     simp only [flatTest] at h
